@@ -20,6 +20,8 @@ std::unique_ptr<NodeResult> ArrayDeclareNode::evaluate(PSC::Context &ctx) {
     }
 
     std::vector<PSC::ArrayDimension> dimensions;
+    const unsigned long maxElements = std::vector<std::unique_ptr<PSC::Variable>>().max_size();
+    unsigned long totalElements = 1;
 
     for (size_t i = 0; i < bounds.size(); i += 2) {
         auto lowerRes = bounds[i]->evaluate(ctx);
@@ -35,6 +37,12 @@ std::unique_ptr<NodeResult> ArrayDeclareNode::evaluate(PSC::Context &ctx) {
 
         if (upper < lower)
             throw PSC::RuntimeError(bounds[i + 1]->getToken(), ctx, "Array upper bound must be greater than lower bound");
+
+        // the element count must be representable: (upper - lower) + 1 wraps to 0 for the full INTEGER range
+        unsigned long dimensionSize = (unsigned long) upper - (unsigned long) lower + 1;
+        if (dimensionSize == 0 || dimensionSize > maxElements / totalElements)
+            throw PSC::RuntimeError(bounds[i + 1]->getToken(), ctx, "Array is too large");
+        totalElements *= dimensionSize;
 
         dimensions.emplace_back((PSC::int_t) (i / 2), lower, upper);
     }
